@@ -32,14 +32,16 @@ func init() {
 		Explanation: "Decided by abstract evaluation of the SSA of /repo over finite domains, compared with the reference tables of DESIGN.md appendix A (kept in the checker by exported enum constant names). " +
 			"(D1) guard table: each of the seven exported MetadataStore contact operations is evaluated for each of the seven ContactState values (the function that returns the ContactState of a key is answered by an oracle; the account group, a well-formed contact and a foreign key are assumed; delegation enqueue/receive -> mark-sent is evaluated by inlining with the same state). A cell is 'refused' when no path seals an event or reaches the log append (basestore AddOperation) and every return carries a non-nil error; it is 'appends E' when a path reaches the append with the constant event type E, no path seals another type or appends twice, and no path returns a possibly-nil error without having sealed or appended anything. The 7x7 table must equal A.1, and the state must be read for the key of the contact operated on. " +
 			"(D2) preconditions: on any other group type; with the account's own key (enqueue, receive, block; state Undefined, the only state an own key can have); with a short, long or missing seed, a missing key or a key that does not parse (enqueue, receive; a missing seed is legal for receive only, which must then follow the same table) nothing is sealed or appended and no nil error is returned, in every state; the seven contact event types are handed to functions taking an event type only inside the seven operations (no unguarded entry point). " +
-			"(D3) event->state table: the single handler registered in the index for each contact event type is evaluated with abstract maps. On an index without the subject it stores, under the event's contact key, in the map the state reader reads, a new record whose state is the constant of A.2 and whose key/seed/metadata are the event's (nil where the event carries none); on an index where the subject exists (4 combinations of nil/non-nil Metadata and PublicRendezvousSeed) it inserts nothing and leaves state, key, seed and metadata unchanged, except that the enqueued/received handlers fill Metadata and PublicRendezvousSeed from the event when, and only when, they are nil. " +
+			"(D3) event->state table: the single handler registered in the index for each contact event type is evaluated with abstract maps. On an index without the subject it stores, under the event's contact key, in the map the state reader reads, a new record whose state is the constant of A.2 and whose key/seed/metadata are the event's (nil where the event carries none), on EVERY returning path of a well-formed event (right message type, sub-messages present, 32-byte key) whether or not a secondary step (group look-up, by-group registration) fails, and does not delete it again; on an index where the subject exists (4 combinations of nil/non-nil Metadata and PublicRendezvousSeed) it inserts nothing never deletes from that map (delete(...) leaves a tombstone in the abstract map; entries are only dropped by the reset at the start of a re-index) and leaves state, key, seed and metadata unchanged, except that the enqueued/received handlers fill Metadata and PublicRendezvousSeed from the event when, and only when, they are nil. " +
 			"(D4) ShareableContact.CheckFormat decision table over seed length {0,31,32,33} x key {missing, valid, unparsable} x the four option sets equals A.3. " +
+			"(D7) the loop of the index's UpdateIndex that hands the log entries to the event handlers (handlers = dynamic calls of the element type of the handler table, in the loop or in a function called from it) is left only at the end of the sequence (an exit decided by the loop's own counters/bounds or a range iterator) or towards returns of a non-nil error: a break / return nil / goto out of the per-entry body makes the state depend on a prefix of the scan (this is a necessary condition of C04 too and is phrased on the index type only, so C04 can borrow C07.D7). " +
+			"(D8) at every call of one of the seven operations (RPC handlers of the service, the contact-request protocol, delegations inside the store) the caller has an error result and fails whenever the operation fails: the operation's error verdict is tested and its failing side reaches only returns of a non-nil error, or the verdict is returned (also through a named result cell that is only overwritten by non-nil errors); a shadowed variable that is not the one returned does not count. " +
 			"(D5) the event appended by each operation carries the contact's key (and for enqueue/receive the contact's seed and metadata, for enqueue the caller's own metadata) in the right fields. " +
 			"(D6) the function that reads the current state of a key answers Undefined for a key the index has no record for (and for a nil key) and the stored state otherwise. " +
 			"Not decided: that the index visits log entries newest-first and in a replica-independent order and is reset before each replay (C04), hence the 'any replica that replays its log' clause; error codes beyond error/no error; the listing accessors (ListContacts, ListContactsByStatus, GetContactFromGroupPK) and the by-group registration of a contact; the remembered own metadata; absence of panics on nil keys (C19); signature and sealing of the appended event (C03); races between two concurrent operations. The enqueue of a blocked contact re-opens the request (appendix A.1 note 2) and is recorded as the reference behaviour.",
-		Trusted:     []string{"golang.org/x/tools go/packages+go/ssa (v0.29.0)", "go/types", "go-orbit-db basestore.AddOperation is the only way to append to the log", "libp2p crypto.PubKey.Equals / Raw / UnmarshalEd25519PublicKey semantics", "slices.Contains, bytes.Equal semantics"},
+		Trusted:     []string{"golang.org/x/tools go/packages+go/ssa (v0.29.0)", "go/types", "go-orbit-db basestore.AddOperation is the only way to append to the log", "libp2p crypto.PubKey.Equals / Raw / UnmarshalEd25519PublicKey semantics", "slices.Contains, bytes.Equal semantics", "crypto.UnmarshalEd25519PublicKey accepts every 32-byte string (no curve check)"},
 		Assumptions: []string{"events about a contact are appended only by the devices of the account through these operations, so the account's own key is never a contact (its state is Undefined)", "the index applies the handlers newest event first (C04)"},
-		Floors:      map[string]int{"D1": 49, "D2": 27, "D3": 14, "D4": 48, "D5": 7, "D6": 3},
+		Floors:      map[string]int{"D1": 49, "D2": 27, "D3": 14, "D4": 48, "D5": 7, "D6": 3, "D7": 1, "D8": 9},
 		Run:         runC07,
 	})
 }
@@ -411,7 +413,11 @@ func (x *c07Interp) evalInstr(fr *frame, st *pstate, v ssa.Value) AVal {
 		if _, weak := o.Slots["#weak"]; !weak {
 			if key := c07MapKey(ev.val(fr, in.Index)); key != "" {
 				if e, has := o.Slots["k:"+key]; has {
-					val, present, known = e, c07MkBool(true), true
+					if _, gone := e.(c07Absent); gone {
+						val, present, known = zeroOf(mt.Elem()), c07MkBool(false), true
+					} else {
+						val, present, known = e, c07MkBool(true), true
+					}
 				}
 			}
 			if !known {
@@ -458,6 +464,19 @@ func (x *c07Interp) doCall(fr *frame, c *ssa.Call, b *ssa.BasicBlock, idx int, s
 		x.runBlock(fr, b, nil, idx+1, st, k)
 	}
 	if bi, ok := cc.Value.(*ssa.Builtin); ok {
+		if bi.Name() == "delete" && len(args) == 2 {
+			// delete(m, k) on an abstract map leaves a tombstone
+			if mv, ok := args[0].(c07Map); ok {
+				if o := st.heap[mv.ID]; o != nil {
+					if key := c07MapKey(args[1]); key != "" {
+						o.Slots["k:"+key] = c07Absent{}
+					} else {
+						o.Slots["#weak"] = c07MkBool(true)
+						o.Slots["#deleted"] = c07MkBool(true)
+					}
+				}
+			}
+		}
 		resume([]AVal{ev.builtin(fr, bi.Name(), cc, args)}, st)
 		return
 	}
@@ -527,6 +546,8 @@ type c07Env struct {
 	accountGT int64
 	seedLen   int
 	canAppend map[*ssa.Function]bool
+	// types of the functions stored in the index's handler table (filled by findHandlers)
+	handlerSigs []types.Type
 }
 
 func (e *c07Env) evName(v int64) string {
@@ -1403,6 +1424,19 @@ func (e *c07Env) findHandlers() map[string][]c07Handler {
 				if !isContact {
 					continue
 				}
+				var ht types.Type = mt.Elem()
+				if sl, ok := ht.Underlying().(*types.Slice); ok {
+					ht = sl.Elem()
+				}
+				if _, isSig := ht.Underlying().(*types.Signature); isSig {
+					known := false
+					for _, x := range e.handlerSigs {
+						known = known || types.Identical(x, ht)
+					}
+					if !known {
+						e.handlerSigs = append(e.handlerSigs, ht)
+					}
+				}
 				for _, h := range c07FuncsIn(mu.Value, 0) {
 					if h.Signature.Recv() == nil {
 						continue
@@ -1539,6 +1573,7 @@ type c07IdxPath struct {
 	ErrNonNil bool
 	// state map after the handler: key -> flattened record
 	Inserted map[string]map[string]string
+	Deleted  []string // keys deleted from the state map
 	Weak     bool
 	// the pre-existing record after the handler (present scenario)
 	Existing map[string]string
@@ -1566,6 +1601,9 @@ func (e *c07Env) evalHandler(h c07Handler, idxStruct *types.Struct, stateFields 
 			switch {
 			case types.Identical(t, e.groupT):
 				return c07MkInt(e.accountGT, t), true
+			case c07IsByteSlice(t) && (path == "event.ContactPk" || path == "event.Contact.Pk"):
+				// the contact key of a well-formed event: 32 bytes (the operations only append such keys)
+				return aSlice{Path: path, Len: 32}, true
 			case c07IsByteSlice(t):
 				return aSym{Path: path}, true
 			}
@@ -1659,7 +1697,13 @@ func (e *c07Env) evalHandler(h c07Handler, idxStruct *types.Struct, stateFields 
 				switch {
 				case slot == "#weak":
 					p.Weak = true
+				case slot == "#deleted":
+					p.Deleted = append(p.Deleted, "an unknown key")
 				case strings.HasPrefix(slot, "k:"):
+					if _, gone := v.(c07Absent); gone {
+						p.Deleted = append(p.Deleted, strings.TrimPrefix(slot, "k:s:"))
+						continue
+					}
 					rec := map[string]string{}
 					if ptr, ok := v.(aPtr); ok {
 						if recObj != nil && ptr.ID == recObj.ID {
@@ -1755,7 +1799,8 @@ func (e *c07Env) runD3() (idxPtrT types.Type) {
 			}
 			return c07Or(v, "a non-constant value")
 		}
-		var bad []string
+		var bad, unstored []string
+		partial := false
 		stored, rets, rejects := 0, 0, 0
 		trunc := why
 		for _, p := range paths {
@@ -1772,9 +1817,17 @@ func (e *c07Env) runD3() (idxPtrT types.Type) {
 			if p.Weak {
 				bad = append(bad, "the contacts map is updated under a key that does not derive from the event")
 			}
+			how := "returns an error"
+			if !p.ErrNonNil {
+				how = "reports success"
+			}
+			for _, k := range p.Deleted {
+				partial = true
+				bad = append(bad, fmt.Sprintf("the record stored for the event is deleted again from the contacts table (key %s) on a path that %s: entries of that table are only dropped by the reset at the start of a re-index, the newest event about a contact decides its state whatever a secondary step does", k, how))
+			}
 			if len(p.Inserted) == 0 {
-				if !p.ErrNonNil {
-					bad = append(bad, "a path reports success without storing the contact")
+				if len(p.Deleted) == 0 {
+					unstored = append(unstored, how)
 				}
 				continue
 			}
@@ -1802,6 +1855,14 @@ func (e *c07Env) runD3() (idxPtrT types.Type) {
 				chk("Pk", pkField)
 				chk("Metadata", metaField)
 				chk("PublicRendezvousSeed", seedField)
+			}
+		}
+		if stored > 0 || partial {
+			// the handler does store the contact on some path: then it must on every path of a
+			// well-formed event (right message type, sub-messages present, 32-byte key)
+			sort.Strings(unstored)
+			for _, how := range c07Uniq(unstored) {
+				bad = append(bad, fmt.Sprintf("a path %s without the contact being in the contacts table although the event is well formed: the state write depends on a secondary step", how))
 			}
 		}
 		sort.Strings(bad)
@@ -1837,7 +1898,10 @@ func (e *c07Env) runD3() (idxPtrT types.Type) {
 						continue
 					}
 					returns++
-					replaced := p.Weak
+					for _, k := range p.Deleted {
+						bad = append(bad, fmt.Sprintf("the record of an existing contact is deleted from the contacts table (key %s): entries of that table are only dropped by the reset at the start of a re-index", k))
+					}
+					replaced := p.Weak && len(p.Deleted) == 0
 					for _, rec := range p.Inserted {
 						if rec["#same"] == "" {
 							replaced = true
@@ -2077,6 +2141,413 @@ func (e *c07Env) runD6(idxPtr types.Type) {
 }
 
 // ---------------------------------------------------------------------------
+// D7: the index scan visits every entry
+
+type c07Loop struct {
+	Head *ssa.BasicBlock
+	Body map[*ssa.BasicBlock]bool
+}
+
+// c07Loops: natural loops of fn (back edge t->h with h dominating t), merged per header.
+func c07Loops(fn *ssa.Function) []*c07Loop {
+	byHead := map[*ssa.BasicBlock]*c07Loop{}
+	var order []*ssa.BasicBlock
+	for _, t := range fn.Blocks {
+		for _, h := range t.Succs {
+			if !h.Dominates(t) {
+				continue
+			}
+			l := byHead[h]
+			if l == nil {
+				l = &c07Loop{Head: h, Body: map[*ssa.BasicBlock]bool{h: true}}
+				byHead[h] = l
+				order = append(order, h)
+			}
+			stack := []*ssa.BasicBlock{t}
+			for len(stack) > 0 {
+				b := stack[len(stack)-1]
+				stack = stack[:len(stack)-1]
+				if l.Body[b] {
+					continue
+				}
+				l.Body[b] = true
+				stack = append(stack, b.Preds...)
+			}
+		}
+	}
+	var out []*c07Loop
+	for _, h := range order {
+		out = append(out, byHead[h])
+	}
+	return out
+}
+
+// c07BoundOnly: v is computed from the loop's own counters and bounds only (constants, phis of
+// the loop header, len/cap, arithmetic and comparisons on those, the ok of a range iterator):
+// an exit decided by v is the end of the sequence, not a decision about an entry.
+func c07BoundOnly(v ssa.Value, l *c07Loop, depth int, seen map[ssa.Value]bool) bool {
+	if depth > 8 {
+		return false
+	}
+	if seen[v] {
+		return true
+	}
+	seen[v] = true
+	switch x := v.(type) {
+	case *ssa.Const:
+		return true
+	case *ssa.Phi:
+		if x.Block() != l.Head {
+			return false
+		}
+		for _, e := range x.Edges {
+			if !c07BoundOnly(e, l, depth+1, seen) {
+				return false
+			}
+		}
+		return true
+	case *ssa.BinOp:
+		return c07BoundOnly(x.X, l, depth+1, seen) && c07BoundOnly(x.Y, l, depth+1, seen)
+	case *ssa.UnOp:
+		return x.Op != token.MUL && x.Op != token.ARROW && c07BoundOnly(x.X, l, depth+1, seen)
+	case *ssa.Convert:
+		return c07BoundOnly(x.X, l, depth+1, seen)
+	case *ssa.Call:
+		if b, ok := x.Common().Value.(*ssa.Builtin); ok && (b.Name() == "len" || b.Name() == "cap") {
+			// the length of the walked sequence: anything defined outside the loop
+			if in, ok := x.Common().Args[0].(ssa.Instruction); ok && in.Block() != nil && l.Body[in.Block()] {
+				return false
+			}
+			return true
+		}
+	case *ssa.Extract:
+		if nx, ok := x.Tuple.(*ssa.Next); ok && x.Index == 0 {
+			_ = nx
+			return true
+		}
+	}
+	return false
+}
+
+// runD7: in the UpdateIndex of the index type, the loop that hands log entries to the event
+// handlers is left only at the end of the sequence or towards a returned error. Any other exit
+// (break, return nil, goto) makes the state depend on a prefix of the scan: with the
+// newest-first scan every older event is lost, contacts vanish and guards decide on Undefined.
+// This is also a necessary condition of C04 (state is a function of the whole entry set).
+func (e *c07Env) runD7(idxPtr types.Type) {
+	c := e.c
+	upd := e.w.methodOf(idxPtr, "UpdateIndex")
+	if upd == nil || upd.Blocks == nil {
+		c.undecided("D7", "UpdateIndex", token.NoPos, "the index type has no UpdateIndex method with a body")
+		return
+	}
+	c.analysed(upd)
+	un := fnName(upd)
+	// dispatch calls: dynamic calls of a func(message) error taken from a map keyed by EventType
+	isDispatch := func(call *ssa.Call) bool {
+		cc := call.Common()
+		if cc.IsInvoke() || staticCallee(cc) != nil {
+			return false
+		}
+		if _, isB := cc.Value.(*ssa.Builtin); isB {
+			return false
+		}
+		sig := cc.Signature()
+		if sig.Params().Len() != 1 || sig.Results().Len() != 1 || !isErrorType(sig.Results().At(0).Type()) {
+			return false
+		}
+		// the type of the functions stored in the handler table
+		for _, ht := range e.handlerSigs {
+			if types.Identical(cc.Value.Type().Underlying(), ht.Underlying()) {
+				return true
+			}
+		}
+		return false
+	}
+	hasDispatch := map[*ssa.Function]bool{}
+	reach := e.w.reachableFuncs([]*ssa.Function{upd}, 3)
+	for fn := range reach {
+		for _, b := range fn.Blocks {
+			for _, in := range b.Instrs {
+				if call, ok := in.(*ssa.Call); ok && isDispatch(call) {
+					hasDispatch[fn] = true
+				}
+			}
+		}
+	}
+	// functions from which a dispatch is reachable
+	leads := map[*ssa.Function]bool{}
+	for fn := range reach {
+		for g := range e.w.reachableFuncs([]*ssa.Function{fn}, 3) {
+			if hasDispatch[g] {
+				leads[fn] = true
+			}
+		}
+	}
+	var sites []ssa.Instruction
+	for _, b := range upd.Blocks {
+		for _, in := range b.Instrs {
+			call, ok := in.(*ssa.Call)
+			if !ok {
+				continue
+			}
+			if isDispatch(call) {
+				sites = append(sites, call)
+			} else if f := staticCallee(call.Common()); f != nil && f != upd && leads[f] {
+				sites = append(sites, call)
+			}
+		}
+	}
+	if len(sites) == 0 {
+		c.undecided("D7", un+"+entry-loop", upd.Pos(), "no dynamic call of a function of the handler table's element type was found in or below %s", un)
+		return
+	}
+	loops := c07Loops(upd)
+	var outer *c07Loop
+	for _, l := range loops {
+		for _, sIn := range sites {
+			if l.Body[sIn.Block()] && (outer == nil || len(l.Body) > len(outer.Body)) {
+				outer = l
+			}
+		}
+	}
+	if outer == nil {
+		c.undecided("D7", un+"+entry-loop", upd.Pos(), "%s calls the event handlers outside any loop: the walk over the log entries was not found", un)
+		return
+	}
+	var bad []string
+	exits := 0
+	pos := posOf(sites[0])
+	for _, u := range upd.Blocks {
+		if !outer.Body[u] {
+			continue
+		}
+		for _, v := range u.Succs {
+			if outer.Body[v] {
+				continue
+			}
+			exits++
+			// (a) the end of the sequence
+			if ifi, ok := u.Instrs[len(u.Instrs)-1].(*ssa.If); ok && c07BoundOnly(ifi.Cond, outer, 0, map[ssa.Value]bool{}) {
+				continue
+			}
+			// (b) towards returned errors only
+			okErr := true
+			nret := 0
+			for blk := range reachFromEdges([]edge{{u, v}}, nil) {
+				if len(blk.Instrs) == 0 || blk == upd.Recover {
+					continue
+				}
+				if r, ok := blk.Instrs[len(blk.Instrs)-1].(*ssa.Return); ok {
+					nret++
+					if isSuccessReturn(r) {
+						okErr = false
+					}
+				}
+			}
+			if okErr && nret > 0 {
+				continue
+			}
+			where := posOf(u.Instrs[len(u.Instrs)-1])
+			if !where.IsValid() {
+				where = posOf(v.Instrs[0])
+			}
+			pos = where
+			bad = append(bad, c.pos(where))
+		}
+	}
+	sort.Strings(bad)
+	bad = c07Uniq(bad)
+	if len(bad) > 0 {
+		c.fail("D7", un+"+entry-loop", pos, "the loop of %s that hands the log entries to the event handlers can be left before the last entry without an error being returned (exit at %s): every entry after that point of the scan is ignored, so the state depends on a prefix of the log (newest-first scan: all older events about every contact are lost once such an entry exists)", un, strings.Join(bad, ", "))
+		return
+	}
+	c.ok("D7", un+"+entry-loop", pos, "the entry loop of %s is left only at the end of the sequence or towards a returned error (%d exit edges)", un, exits)
+}
+
+// ---------------------------------------------------------------------------
+// D8: callers of the operations fail when the operation fails
+
+// runD8: at every call of one of the seven operations, in a function that has an error
+// result, the operation's error is returned (possibly wrapped) on its failing side: a refusal
+// by the guards must reach the caller of the RPC / of the contact-request protocol.
+func (e *c07Env) runD8(ops []*c07Op) {
+	c := e.c
+	opSet := map[*ssa.Function]*c07Op{}
+	for _, op := range ops {
+		opSet[op.Fn] = op
+	}
+	n := 0
+	for _, fn := range e.w.ModFuncs {
+		for _, b := range fn.Blocks {
+			for _, in := range b.Instrs {
+				ci, ok := in.(ssa.CallInstruction)
+				if !ok {
+					continue
+				}
+				f := staticCallee(ci.Common())
+				op := opSet[f]
+				if f == nil || op == nil {
+					continue
+				}
+				construct := fnName(fn) + "->" + op.Ref.Method
+				c.analysed(fn)
+				n++
+				call, isCall := in.(*ssa.Call)
+				if !isCall {
+					c.fail("D8", construct, posOf(in), "%s is started with go/defer: its refusal cannot reach the caller", op.Ref.Method)
+					continue
+				}
+				if errResultIndex(fn.Signature) < 0 {
+					c.fail("D8", construct, posOf(in), "%s calls %s but cannot report its refusal (no error result)", fnName(fn), op.Ref.Method)
+					continue
+				}
+				v := errVerdict(call)
+				r := rejectOnFailure(fn, v)
+				if !r.OK && len(r.Returns) > 0 && len(r.Escapes) == 0 {
+					// the error may travel in a named result cell: `_, err = op(); if err != nil
+					// { err = wrap(err) }; return reply, err` fails as well
+					kept := true
+					for _, ret := range r.Returns {
+						if !c07CellKeepsError(fn, v, ret) {
+							kept = false
+						}
+					}
+					if kept {
+						r.OK, r.Why = true, "the error stays in the result variable on the failing side"
+					}
+				}
+				if r.OK {
+					c.ok("D8", construct, posOf(in), "a refusal of %s makes %s fail (%s)", op.Ref.Short, fnName(fn), r.Why)
+				} else {
+					where := describeReturns(c, r.Returns)
+					if where != "" {
+						where = " (return at " + where + ")"
+					}
+					c.fail("D8", construct, posOf(in), "%s can report success although %s refused the operation: %s%s; an illegal transition then looks accepted although nothing was appended", fnName(fn), op.Ref.Method, r.Why, where)
+				}
+			}
+		}
+	}
+	if n == 0 {
+		c.undecided("D8", "callers", token.NoPos, "no call of a contact operation found")
+	}
+}
+
+// c07CellKeepsError: ret returns the content of a result cell (named error result) that holds
+// the verdict v when v is tested, and on every path from the failing side of that test to ret
+// the cell is only overwritten with definitely non-nil errors (or with itself).
+func c07CellKeepsError(fn *ssa.Function, v ssa.Value, ret *ssa.Return) bool {
+	idx := errResultIndex(fn.Signature)
+	if idx < 0 || idx >= len(ret.Results) {
+		return false
+	}
+	ld, ok := ret.Results[idx].(*ssa.UnOp)
+	if !ok || ld.Op != token.MUL {
+		return false
+	}
+	cell, ok := ld.X.(*ssa.Alloc)
+	if !ok || (cell.Heap && closureWrites(cell)) {
+		return false
+	}
+	// the verdict is stored into the cell in the block that tests it (reload pattern)
+	var st *ssa.Store
+	if v.Referrers() != nil {
+		for _, r := range *v.Referrers() {
+			if s, ok := r.(*ssa.Store); ok && s.Addr == ssa.Value(cell) && s.Val == v {
+				st = s
+			}
+		}
+	}
+	if st == nil {
+		return false
+	}
+	ve := edgesOfVerdict(v)
+	if len(ve.Reject) == 0 {
+		return false
+	}
+	for _, e := range ve.Reject {
+		if e.From != st.Block() {
+			return false
+		}
+		// no other store to the cell after st in that block
+		after := false
+		for _, in := range e.From.Instrs {
+			if in == ssa.Instruction(st) {
+				after = true
+				continue
+			}
+			if s2, ok := in.(*ssa.Store); ok && after && s2.Addr == ssa.Value(cell) {
+				return false
+			}
+		}
+	}
+	isSelfLoad := func(x ssa.Value) bool {
+		u, ok := x.(*ssa.UnOp)
+		return ok && u.Op == token.MUL && u.X == ssa.Value(cell)
+	}
+	// forward: state = the cell is definitely non-nil; merge = and
+	in := map[*ssa.BasicBlock]bool{}
+	var work []*ssa.BasicBlock
+	for _, e := range ve.Reject {
+		if _, seen := in[e.To]; !seen {
+			in[e.To] = true
+			work = append(work, e.To)
+		}
+	}
+	out := func(b *ssa.BasicBlock, state bool) bool {
+		for _, ins := range b.Instrs {
+			if s2, ok := ins.(*ssa.Store); ok && s2.Addr == ssa.Value(cell) {
+				switch {
+				case isSelfLoad(s2.Val):
+				case s2.Val == v:
+					state = true
+				default:
+					state = definitelyNonNilErr(s2.Val, b, 0)
+				}
+			}
+		}
+		return state
+	}
+	for steps := 0; len(work) > 0 && steps < 10000; steps++ {
+		b := work[0]
+		work = work[1:]
+		o := out(b, in[b])
+		for _, s := range b.Succs {
+			cur, seen := in[s]
+			nv := o
+			if seen {
+				nv = cur && o
+			}
+			if !seen || nv != cur {
+				in[s] = nv
+				work = append(work, s)
+			}
+		}
+	}
+	state, reached := in[ret.Block()]
+	if !reached {
+		return true
+	}
+	// stores in the return block before the final load
+	for _, ins := range ret.Block().Instrs {
+		if ins == ssa.Instruction(ld) {
+			break
+		}
+		if s2, ok := ins.(*ssa.Store); ok && s2.Addr == ssa.Value(cell) {
+			switch {
+			case isSelfLoad(s2.Val):
+			case s2.Val == v:
+				state = true
+			default:
+				state = definitelyNonNilErr(s2.Val, ret.Block(), 0)
+			}
+		}
+	}
+	return state
+}
+
+// ---------------------------------------------------------------------------
 // D4: CheckFormat
 
 func (e *c07Env) runD4() {
@@ -2197,9 +2668,12 @@ func runC07(c *Ctx) {
 	e.runD2(ops)
 	if idxT := e.runD3(); idxT != nil {
 		e.runD6(idxT)
+		e.runD7(idxT)
 	} else {
 		c.undecided("D6", "state reader", token.NoPos, "the index type was not found (no contact handler)")
+		c.undecided("D7", "UpdateIndex", token.NoPos, "the index type was not found (no contact handler)")
 	}
+	e.runD8(ops)
 	e.runD4()
 	c.note("reference A.1 note 2: enqueue of a Blocked contact appends OutgoingEnqueued (the contact leaves the blocked state); recorded as the reference behaviour")
 }
